@@ -16,8 +16,8 @@ import (
 	"sync"
 
 	"storj.io/drpc"
-	"storj.io/drpc/drpcmetadata"
 	"storj.io/drpc/drpcmanager"
+	"storj.io/drpc/drpcmetadata"
 	"storj.io/drpc/drpcstream"
 
 	"verifharness/census"
